@@ -87,6 +87,8 @@ def ghost_db(sx, st):
     st.ghost["n_broadcast_local"] = V.mk_int(0)
     st.ghost["n_broadcast_peers"] = V.mk_int(0)
     st.ghost["constructed_event"] = sx.fresh(EVENT, "no_event", st)
+    st.ghost["tags_indexed_for"] = sx.fresh(EVENT, "nothing_indexed", st)
+    st.ghost["process_tags_calls"] = V.mk_int(0)
 
 
 # ---- spec vocabulary --------------------------------------------------------------------------------
@@ -243,6 +245,15 @@ process_tags.obligation_props = [("sql:statement-inside-open-transaction", ["C07
                                  ("post:", ["C08"]), ("inv:", ["C08"]), ("exc:", ["C08", "C07"])]
 
 
+@REG.method("DBStorage", "process_tags", frame=None)
+def _call_process_tags(sx, args, kwargs, st, node):
+    """self.process_tags(conn, event): its own contract above, plus the record WHICH event's tags were handed to the indexer
+    (the tags table is what tag queries, NIP-09 deletions and the garbage collector's expiration test read)"""
+    st.ghost["process_tags_calls"] = Val(V.Int, st.ghost["process_tags_calls"].term + 1)
+    st.ghost["tags_indexed_for"] = sx.deref(args[2], st)
+    return REG.call_contract(sx, process_tags_contract, args[0], list(args[1:]), kwargs, st, node)
+
+
 # ---- post_save (C09 for kinds 0/3 + delegates to process_tags) --------------------------------------------
 post_save_contract = Contract(
     "DBStorage.post_save", {"self": V.ObjT("DBStorage"), "event": EVENT, "connection": lambda sx, st, name: Conc(SQL.Connection()), "changed": V.Bool, "r0": ROW},
@@ -259,14 +270,19 @@ post_save_contract = Contract(
         ("stays-in-transaction", "ghost('txn_open')"),
         # C07: no statement of this event's transaction failed and was swallowed (a failure must escape and roll everything back)
         ("no-failed-statement-swallowed", "not ghost('engine_failed')"),
+        # C17 / C02 / C08: every newly stored event -- whatever its kind -- has its tags indexed, exactly once (the tags table is the
+        # representation the expiration test of the garbage collector, tag queries and NIP-09 deletions rely on)
+        ("newly-stored-event-gets-its-tags-indexed",
+         "implies(changed, ghost('process_tags_calls') == old(ghost('process_tags_calls')) + 1 and ghost('tags_indexed_for') == event)"),
     ],
     raises={"EngineError+": True, "ValueError": True, "IndexError": True},
-    modifies=["ghost.rows", "ghost.n_statements", "ghost.n_deletes", "ghost.n_tag_inserts", "ghost.last_rowcount"],
+    modifies=["ghost.rows", "ghost.n_statements", "ghost.n_deletes", "ghost.n_tag_inserts", "ghost.last_rowcount", "ghost.process_tags_calls", "ghost.tags_indexed_for"],
 )
 post_save_contract.ghost_params = ("r0",)
-post_save = REG.unit(Unit(P, "DBStorage.post_save", post_save_contract, props=["C09", "C08", "C06", "C07"], ghost_init=ghost_db,
+post_save = REG.unit(Unit(P, "DBStorage.post_save", post_save_contract, props=["C09", "C08", "C06", "C07", "C17", "C02"], ghost_init=ghost_db,
                           canaries=[("always-changed", "changed")]))
 post_save.obligation_props = [("sql:statement-inside-open-transaction", ["C07"]), ("post:stays-in-transaction", ["C07"]), ("post:no-failed-statement", ["C07"]),
+                              ("post:newly-stored-event-gets-its-tags-indexed", ["C17", "C02", "C08"]),
                               ("post:unchanged-event-has-no-effects", ["C06"]), ("call:DBStorage.process_tags/pre:inside", ["C07"]),
                               ("post:", ["C09", "C08"]), ("exc:", ["C07"])]
 
@@ -300,11 +316,13 @@ add_event_contract = Contract(
                  for k in ("StorageError", "AuthenticationError", "EngineError+", "Exception+")},
 )
 add_event_contract.ghost_params = ("r0",)
-add_event = REG.unit(Unit(P, "DBStorage.add_event", add_event_contract, props=["C03", "C04", "C05", "C06", "C07", "C14", "C16", "C19"], ghost_init=ghost_db,
+add_event = REG.unit(Unit(P, "DBStorage.add_event", add_event_contract, props=["C03", "C04", "C05", "C06", "C07", "C14", "C16", "C19", "C20"], ghost_init=ghost_db,
                           canaries=[("never-stores", "not result[1]")]))
 add_event.obligation_props = [
     ("sql:insert-only-validated", ["C03", "C16"]), ("sql:insert-only-authorized", ["C14"]), ("sql:insert-is-the-submitted", ["C04", "C03"]),
     ("broadcast:local:only-validated", ["C03", "C16"]), ("broadcast:peers:only-validated", ["C03", "C16"]),
+    # C20: the id is announced to the other workers only after the row is committed (they look it up by id at once)
+    ("broadcast:peers:after-commit", ["C07", "C20"]),
     ("only-authorized", ["C14"]), ("only-newly-stored", ["C06", "C05"]), ("after-commit", ["C07"]),
     ("post:accepted-only-validated-and-authorized", ["C03", "C14", "C16"]),
     ("post:flag-iff", ["C06"]), ("post:returns-the", ["C06"]), ("post:stored-event", ["C06"]), ("post:duplicate", ["C06"]), ("post:broadcast-iff", ["C06", "C05"]),
